@@ -429,8 +429,28 @@ func ruleC04Units(c *Ctx) {
 				c.verdictIf(good, rule, ih, fmt.Sprintf("current-position conversion@%s", exprString(a[1])), cs.Call.Pos(), "content position = position of the record being replayed", "a CREATE/content-UPDATE conversion does not use the current (record, block) for the content position")
 			}
 		}
-		if nOld != 1 {
-			c.unresolved("expected exactly one conversion keeping an old row's position in indexHeader, found %d", nOld)
+		if nOld == 0 {
+			// alternative shape: the row is built for the current position and then patched field by field
+			var recFrom, blkFrom types.Object
+			walkOwn(ih.Body(), func(nd ast.Node) {
+				as, ok := nd.(*ast.AssignStmt)
+				if !ok || len(as.Lhs) != 1 || len(as.Rhs) != 1 {
+					return
+				}
+				l, ok1 := ast.Unparen(as.Lhs[0]).(*ast.SelectorExpr)
+				r, ok2 := ast.Unparen(as.Rhs[0]).(*ast.SelectorExpr)
+				if !ok1 || !ok2 || l.Sel.Name != r.Sel.Name {
+					return
+				}
+				switch l.Sel.Name {
+				case "Record":
+					recFrom = objOfIdent(info, r.X)
+				case "Block":
+					blkFrom = objOfIdent(info, r.X)
+				}
+			})
+			c.verdictIf(recFrom != nil && recFrom == blkFrom, rule, ih, "metadata-only update positions", ih.Decl.Pos(), "the old row's Record and Block are both carried over",
+				"the metadata-only update does not keep the old row's content position as a (Record, Block) pair: after a chmod/chtimes the entry points at a place on the tape that is not the start of its content record")
 		}
 	}
 	if nsites < half(40) {
@@ -700,4 +720,135 @@ func ruleC04Advance(c *Ctx) {
 			c.unresolved("only %d position uses in %s", k, name)
 		}
 	}
+}
+
+
+// ruleC04Paired: record and block always travel as a pair from one origin - at calls with a (record, block) slot
+// pair and at field stores.
+func ruleC04Paired(c *Ctx) {
+	const rule = "C04.record-block-paired"
+	c.floor(rule, 20, "(record, block) argument pairs and field-store pairs")
+	origin := func(info *types.Info, e ast.Expr) string {
+		e = stripConv(info, e)
+		if tv, ok := info.Types[e]; ok && tv.Value != nil {
+			return "const"
+		}
+		switch x := e.(type) {
+		case *ast.SelectorExpr:
+			if o := objOfIdent(info, x.X); o != nil {
+				return fmt.Sprintf("field of %s@%d", o.Name(), o.Pos())
+			}
+			return "field of " + types.ExprString(x.X)
+		case *ast.Ident:
+			return "variable"
+		case *ast.CallExpr:
+			return "call " + types.ExprString(x.Fun)
+		}
+		return "expr"
+	}
+	n := 0
+	for _, f := range c.Funcs {
+		if strings.HasPrefix(f.RelPkg(), "internal/db/") || strings.HasPrefix(f.RelPkg(), "examples") {
+			continue
+		}
+		info := f.Pkg.TypesInfo
+		k := 0
+		for _, cs := range f.calls {
+			fn, ok := cs.Callee.(*types.Func)
+			if !ok || !inRepo(fn) {
+				continue
+			}
+			sig := fn.Type().(*types.Signature)
+			idx := map[string]int{}
+			for i := 0; i < sig.Params().Len() && i < len(cs.Call.Args); i++ {
+				idx[strings.ToLower(sig.Params().At(i).Name())] = i + 1
+			}
+			for _, pr := range [][2]string{{"record", "block"}, {"lastknownrecord", "lastknownblock"}} {
+				ri, bi := idx[pr[0]], idx[pr[1]]
+				if ri == 0 || bi == 0 {
+					continue
+				}
+				n++
+				k++
+				a, b := origin(info, cs.Call.Args[ri-1]), origin(info, cs.Call.Args[bi-1])
+				c.verdictIf(a == b, rule, f, fmt.Sprintf("%s#%d (%s,%s)", fn.Name(), k, pr[0], pr[1]), cs.Call.Pos(),
+					"both halves of the position come from the same origin ("+a+")", fmt.Sprintf("the %s argument comes from a %s but the %s argument from a %s: the two halves of a tape position must describe the same record", pr[0], a, pr[1], b))
+			}
+		}
+		// field stores: per base object, Block <-> Record and Lastknownblock <-> Lastknownrecord
+		type key struct {
+			base types.Object
+			name string
+		}
+		stores := map[key]string{}
+		pos := map[key]token.Pos{}
+		walkOwn(f.Body(), func(nd ast.Node) {
+			as, ok := nd.(*ast.AssignStmt)
+			if !ok || len(as.Lhs) != len(as.Rhs) {
+				return
+			}
+			for i, l := range as.Lhs {
+				se, ok := ast.Unparen(l).(*ast.SelectorExpr)
+				if !ok {
+					continue
+				}
+				switch se.Sel.Name {
+				case "Record", "Block", "Lastknownrecord", "Lastknownblock":
+					if b := objOfIdent(info, se.X); b != nil {
+						kk := key{b, se.Sel.Name}
+						stores[kk] = origin(info, as.Rhs[i])
+						pos[kk] = as.Pos()
+					}
+				}
+			}
+		})
+		for kk, org := range stores {
+			var other string
+			switch kk.name {
+			case "Block":
+				other = "Record"
+			case "Lastknownblock":
+				other = "Lastknownrecord"
+			default:
+				continue
+			}
+			n++
+			o2, ok := stores[key{kk.base, other}]
+			c.verdictIf(ok && o2 == org, rule, f, fmt.Sprintf("store pair %s.%s/%s", kk.base.Name(), other, kk.name), pos[kk],
+				"both halves are stored from the same origin", fmt.Sprintf("%s.%s is overwritten (from a %s) without %s.%s being overwritten from the same origin: the stored position no longer designates one record", kk.base.Name(), kk.name, org, kk.base.Name(), other))
+		}
+	}
+	if n < half(20) {
+		c.unresolved("only %d record/block pairs found", n)
+	}
+}
+
+// ruleC04LastPositionQuery: the last indexed position is the (record, block) pair of ONE row - the row with the
+// greatest combined location - never two independent aggregates.
+func ruleC04LastPositionQuery(c *Ctx) {
+	const rule = "C04.last-position-single-row"
+	c.floor(rule, 1, "the query of GetLastIndexedRecordAndBlock")
+	f := c.fn("pkg/persisters", "(*MetadataPersister).GetLastIndexedRecordAndBlock")
+	if f == nil {
+		return
+	}
+	n := 0
+	for _, cs := range f.calls {
+		fn, ok := cs.Callee.(*types.Func)
+		if !ok || fn.Name() != "Raw" || fn.Pkg() == nil || fn.Pkg().Path() != queriesPath || len(cs.Call.Args) == 0 {
+			continue
+		}
+		n++
+		text := strings.ToLower(sqlTextOf(f, cs.Call.Args[0], 0))
+		single := strings.Contains(text, "order by") && strings.Contains(text, "limit 1") && !strings.Contains(text, "max(") && !strings.Contains(text, "min(")
+		c.verdictIf(single, rule, f, fmt.Sprintf("query#%d", n), cs.Call.Pos(), "one row is selected by ordering on the combined location (order by ... limit 1)",
+			"the last indexed (record, block) is not taken from a single row ordered by its combined location (e.g. independent max() aggregates): the pair can name a position where no record starts, so the next incremental index pass skips or re-reads records")
+	}
+	if n == 0 {
+		c.bad(rule, f, "query#1", f.Decl.Pos(), "GetLastIndexedRecordAndBlock no longer issues its raw query")
+	}
+}
+
+func init() {
+	extend("C04", ruleC04Paired, ruleC04LastPositionQuery)
 }
